@@ -1,5 +1,297 @@
-import PyXABModel.Model.Box
-namespace PyXAB
-/-- placeholder until the geometry development is merged -/
-theorem C02_placeholder : (mid (1 : Nat) 3) = 2 := by decide
-end PyXAB
+/-
+  Property group C02: geometry of the five PyXAB partition classes.
+
+  All theorems are about the executable model `PyXABModel/Model/Box.lean`, instantiated at an
+  arbitrary linearly ordered field `α` (the model only asks for the notation classes, which the
+  field supplies).  Vocabulary (`Box.Mem`, `Tiles`, `Mono`, `DrawOK`, ...) is defined in
+  `PyXABProofs/Spec/Geometry.lean`; helper lemmas are in `PyXABProofs/Lemmas/`.
+
+  Boundary lists are written `lo :: (pts ++ [hi])`, the form used by the model (this is the same
+  list as `lo :: pts ++ [hi]`).
+-/
+import PyXABProofs.Lemmas.Geometry
+import Mathlib.Algebra.Order.Field.Rat
+import Mathlib.Tactic.NormNum.Basic
+
+namespace PyXAB.C02
+open List ListAux
+
+/-! ## 2. faces of a single-dimension split (no order structure needed) -/
+section faces
+variable {α : Type}
+
+/-- Child `j` of `splitChain b dim pts` is `b` with interval `dim` replaced by
+`[L[j], L[j+1]]`, where `L = b[dim].lo :: pts ++ [b[dim].hi]` is the boundary list. -/
+theorem splitChain_child (b : Box α) (dim : Nat) (pts : List α) (hd : dim < b.length)
+    (j : Nat) (hj : j < pts.length + 1) :
+    (splitChain b dim pts)[j]? = some (b.set dim
+      ⟨(b[dim].lo :: (pts ++ [b[dim].hi]))[j]'(by simp; omega),
+       (b[dim].lo :: (pts ++ [b[dim].hi]))[j + 1]'(by simp; omega)⟩) :=
+  splitChain_getElem? b pts hd (getElem?_eq_getElem _) (getElem?_eq_getElem _)
+
+/-- (a) consecutive children share a face: `child_j[dim].hi = child_{j+1}[dim].lo` (the same
+element of the boundary list); (b) the first child starts at the parent's `lo`; (c) the last
+child ends at the parent's `hi`; (d) every child has the parent's dimension and the parent's
+interval in every dimension other than `dim`. -/
+theorem splitChain_faces (b : Box α) (dim : Nat) (pts : List α) (hd : dim < b.length) :
+    (∀ j c c', (splitChain b dim pts)[j]? = some c → (splitChain b dim pts)[j + 1]? = some c' →
+        ∃ (h : dim < c.length) (h' : dim < c'.length), c[dim].hi = c'[dim].lo) ∧
+    (∀ c, (splitChain b dim pts)[0]? = some c →
+        ∃ h : dim < c.length, c[dim].lo = b[dim].lo) ∧
+    (∀ c, (splitChain b dim pts)[pts.length]? = some c →
+        ∃ h : dim < c.length, c[dim].hi = b[dim].hi) ∧
+    (∀ c ∈ splitChain b dim pts, c.length = b.length ∧ ∀ k, k ≠ dim → c[k]? = b[k]?) := by
+  have hlen : ∀ iv : Iv α, dim < (b.set dim iv).length := fun iv => by
+    rw [length_set]; exact hd
+  refine ⟨?_, ?_, ?_, ?_⟩
+  · intro j c c' hc hc'
+    obtain ⟨iv, rfl, _, h2⟩ := splitChain_getElem?_inv b pts hd hc
+    obtain ⟨iv', rfl, h1', _⟩ := splitChain_getElem?_inv b pts hd hc'
+    refine ⟨hlen iv, hlen iv', ?_⟩
+    rw [getElem_set_self, getElem_set_self]
+    rw [h2] at h1'
+    exact Option.some.inj h1'
+  · intro c hc
+    obtain ⟨iv, rfl, h1, _⟩ := splitChain_getElem?_inv b pts hd hc
+    refine ⟨hlen iv, ?_⟩
+    rw [getElem_set_self]
+    rw [getElem?_cons_zero] at h1
+    exact (Option.some.inj h1).symm
+  · intro c hc
+    obtain ⟨iv, rfl, _, h2⟩ := splitChain_getElem?_inv b pts hd hc
+    refine ⟨hlen iv, ?_⟩
+    rw [getElem_set_self]
+    rw [getElem?_cons_succ, getElem?_append_right (le_refl _), Nat.sub_self,
+      getElem?_cons_zero] at h2
+    exact (Option.some.inj h2).symm
+  · intro c hc
+    obtain ⟨iv, _, rfl⟩ := splitChain_mem b pts hd hc
+    exact ⟨length_set, fun k hk => getElem?_set_ne (Ne.symm hk)⟩
+
+end faces
+
+variable {α : Type} [Field α] [LinearOrder α] [IsStrictOrderedRing α]
+
+/-! ## 1. a single-dimension split along a weakly increasing boundary list is a tiling -/
+
+omit [Field α] [IsStrictOrderedRing α] in
+theorem splitChain_tiles (b : Box α) (dim : Nat) (pts : List α) (hb : Box.Valid b)
+    (hd : dim < b.length) (hm : Mono (b[dim].lo :: (pts ++ [b[dim].hi]))) :
+    Tiles (splitChain b dim pts) b ∧ (splitChain b dim pts).length = pts.length + 1 :=
+  ⟨splitChain_tiles_aux hb hd hm, splitChain_length b pts hd⟩
+
+/-! ## 3. `DimensionBinaryPartition` -/
+
+theorem splitAll_tiles (b : Box α) (hb : Box.Valid b) : Tiles (splitAll b) b :=
+  splitAll_tiles_aux hb
+
+omit [LinearOrder α] [IsStrictOrderedRing α] in
+theorem splitAll_length (b : Box α) : (splitAll b).length = 2 ^ b.length :=
+  PyXAB.splitAll_length b
+
+omit [LinearOrder α] [IsStrictOrderedRing α] in
+/-- Child `i` exists for every `i < 2^d`, has `d` coordinates, and its interval in dimension `j`
+is the upper half of the parent's iff bit `j` of `i` is set. -/
+theorem splitAll_child (b : Box α) (i : Nat) (hi : i < 2 ^ b.length) :
+    ∃ c, (splitAll b)[i]? = some c ∧ c.length = b.length ∧
+      ∀ j (hj : j < b.length) (hc : j < c.length),
+        c[j] = if Nat.testBit i j then b[j].upper else b[j].lower := by
+  refine ⟨_, splitAll_getElem? b i hi, length_mapIdx, fun j hj hc => ?_⟩
+  rw [getElem_mapIdx]
+
+/-! ## 4. `np.linspace` boundaries are weakly increasing -/
+
+theorem linspace_mono (lo hi : α) (K : Nat) (h : lo ≤ hi) (hK : 1 ≤ K) :
+    Mono (lo :: (linspacePts lo hi K ++ [hi])) :=
+  linspace_mono' h hK
+
+/-! ## 5. every class produces a tiling with the documented number of children -/
+
+theorem childBoxes_tiles (k : Kind) (b : Box α) (d : Draw α) (hb : Box.Valid b)
+    (hd : DrawOK k b d) :
+    Tiles (childBoxes k b d) b ∧ (childBoxes k b d).length = k.arity b.length := by
+  by_cases hk : k = .dimBinary
+  · subst hk
+    exact ⟨splitAll_tiles_aux hb, PyXAB.splitAll_length b⟩
+  · obtain ⟨h, pts, heq, hm, hl⟩ := childBoxes_eq_splitChain hk hb hd
+    rw [heq, ← hl]
+    exact splitChain_tiles b d.dim pts hb h hm
+
+/-- the dimensions not drawn are untouched (all classes except `DimensionBinaryPartition`) -/
+theorem childBoxes_other_dims (k : Kind) (hk : k ≠ .dimBinary) (b : Box α) (d : Draw α)
+    (hb : Box.Valid b) (hd : DrawOK k b d) :
+    ∀ c ∈ childBoxes k b d, c.length = b.length ∧ ∀ j, j ≠ d.dim → c[j]? = b[j]? := by
+  obtain ⟨h, pts, heq, _, _⟩ := childBoxes_eq_splitChain hk hb hd
+  rw [heq]
+  exact (splitChain_faces b d.dim pts h).2.2.2
+
+/-! ## 6. equal sizes -/
+
+/-- `BinaryPartition`: both children have half the parent's width on the split dimension. -/
+theorem binary_width (b : Box α) (d : Draw α) (hd : DrawOK .binary b d) :
+    ∀ c ∈ childBoxes .binary b d, ∃ h : d.dim < c.length,
+      c[d.dim].hi - c[d.dim].lo = ((b[d.dim]'hd).hi - (b[d.dim]'hd).lo) / 2 := by
+  have hd' : d.dim < b.length := hd
+  intro c hc
+  rw [childBoxes_binary_explicit b d hd'] at hc
+  simp only [mem_cons, not_mem_nil, or_false] at hc
+  rcases hc with rfl | rfl
+  · exact ⟨by rw [length_set]; exact hd', by rw [getElem_set_self]; exact Iv.lower_width _⟩
+  · exact ⟨by rw [length_set]; exact hd', by rw [getElem_set_self]; exact Iv.upper_width _⟩
+
+/-- `KaryPartition`: child `j` is `[lo + j w, lo + (j+1) w]`, `w = (hi - lo) / K`, on the split
+dimension. -/
+theorem kary_child (K : Nat) (b : Box α) (d : Draw α) (hd : DrawOK (.kary K) b d)
+    (j : Nat) (hj : j < K) :
+    (childBoxes (.kary K) b d)[j]? =
+      some (b.set d.dim
+        ⟨(j : α) * (((b[d.dim]'hd.2).hi - (b[d.dim]'hd.2).lo) / (K : α)) + (b[d.dim]'hd.2).lo,
+         ((j : α) + 1) * (((b[d.dim]'hd.2).hi - (b[d.dim]'hd.2).lo) / (K : α)) +
+           (b[d.dim]'hd.2).lo⟩) :=
+  kary_child_getElem? hd.1 b d hd.2 hj
+
+/-- `KaryPartition`: all `K` children have width `(hi - lo) / K` on the split dimension. -/
+theorem kary_width (K : Nat) (b : Box α) (d : Draw α) (hb : Box.Valid b)
+    (hd : DrawOK (.kary K) b d) :
+    ∀ c ∈ childBoxes (.kary K) b d, ∃ h : d.dim < c.length,
+      c[d.dim].hi - c[d.dim].lo = ((b[d.dim]'hd.2).hi - (b[d.dim]'hd.2).lo) / (K : α) := by
+  intro c hc
+  obtain ⟨j, hj⟩ := mem_iff_getElem?.1 hc
+  have hjK : j < K := by
+    have h1 := (List.getElem?_eq_some_iff.1 hj).1
+    have h2 : (childBoxes (.kary K) b d).length = K := (childBoxes_tiles _ b d hb hd).2
+    omega
+  rw [kary_child K b d hd j hjK] at hj
+  have hc' := Option.some.inj hj
+  subst hc'
+  refine ⟨by rw [length_set]; exact hd.2, ?_⟩
+  rw [getElem_set_self]
+  ring
+
+/-- `DimensionBinaryPartition`: every child has half the parent's width in *every* dimension. -/
+theorem dimBinary_width (b : Box α) (d : Draw α) :
+    ∀ c ∈ childBoxes .dimBinary b d, c.length = b.length ∧
+      ∀ j (hc : j < c.length) (hj : j < b.length),
+        c[j].hi - c[j].lo = (b[j].hi - b[j].lo) / 2 := by
+  intro c hc
+  have h := splitAll_halves b c hc
+  rw [forall₂_iff_getElem] at h
+  obtain ⟨hl, h⟩ := h
+  refine ⟨hl, fun j hc hj => ?_⟩
+  rcases h j hc hj with e | e <;> rw [e]
+  · exact Iv.lower_width _
+  · exact Iv.upper_width _
+
+/-! ## 7. the representative point -/
+
+omit [LinearOrder α] [IsStrictOrderedRing α] in
+theorem cpoint_centre (b : Box α) (j : Nat) (hj : j < b.length) :
+    (Box.cpoint b)[j]'(by rw [cpoint_length]; exact hj) = (b[j].lo + b[j].hi) / 2 :=
+  cpoint_getElem b j hj
+
+theorem cpoint_mem (b : Box α) (hb : Box.Valid b) : Box.Mem b (Box.cpoint b) :=
+  cpoint_mem_aux hb
+
+/-- bonus: for a cell with non-empty interior the representative point is interior -/
+theorem cpoint_intMem (b : Box α) (hb : ∀ iv ∈ b, iv.lo < iv.hi) : Box.IntMem b (Box.cpoint b) :=
+  cpoint_intMem_aux hb
+
+section orderOnly
+variable {α : Type} [LinearOrder α]
+
+theorem mem_of_subset (c b : Box α) (x : List α) (h : Box.Subset c b) (hx : Box.Mem c x) :
+    Box.Mem b x :=
+  Box.mem_of_subset h hx
+
+/-! ## 8. refinement of tilings -/
+
+/-- `Tiles` is invariant under permutation of the cells. -/
+theorem tiles_perm (kids kids' : List (Box α)) (b : Box α) (hp : kids.Perm kids') :
+    Tiles kids b ↔ Tiles kids' b :=
+  ⟨Tiles.perm hp, Tiles.perm hp.symm⟩
+
+/-- Replacing one cell of a tiling by a tiling of that cell gives a tiling (new cells appended
+at the end, as a leaf list of a tree would do). -/
+theorem tiles_refine (l₁ l₂ kids : List (Box α)) (c b : Box α)
+    (h : Tiles (l₁ ++ c :: l₂) b) (hk : Tiles kids c) : Tiles (l₁ ++ l₂ ++ kids) b :=
+  Tiles.perm perm_append_comm (tiles_refine_cons (Tiles.perm perm_middle h) hk)
+
+/-- The same with the new cells spliced in place. -/
+theorem tiles_refine_inplace (l₁ l₂ kids : List (Box α)) (c b : Box α)
+    (h : Tiles (l₁ ++ c :: l₂) b) (hk : Tiles kids c) : Tiles (l₁ ++ kids ++ l₂) b := by
+  refine Tiles.perm ?_ (tiles_refine l₁ l₂ kids c b h hk)
+  rw [append_assoc, append_assoc]
+  exact (perm_append_left_iff l₁).2 perm_append_comm
+
+end orderOnly
+
+/-! ## 9. non-vacuity: a concrete 2-D box over `ℚ` with a valid draw for each class -/
+section examples
+
+/-- the cell `[0,1] × [-1,3]` -/
+private abbrev b0 : Box ℚ := [⟨0, 1⟩, ⟨-1, 3⟩]
+
+private theorem b0_valid : Box.Valid b0 := by
+  intro iv hiv
+  simp only [mem_cons, not_mem_nil, or_false] at hiv
+  rcases hiv with rfl | rfl <;> (show (_ : ℚ) ≤ _; norm_num)
+
+example : Box.Valid b0 := b0_valid
+
+example : DrawOK .binary b0 ⟨1, []⟩ := by show 1 < 2; omega
+example : DrawOK .dimBinary b0 ⟨0, []⟩ := trivial
+example : DrawOK .randBinary b0 ⟨1, [2]⟩ :=
+  ⟨by decide, 2, rfl, by show (-1 : ℚ) ≤ 2; norm_num, by show (2 : ℚ) ≤ 3; norm_num⟩
+example : DrawOK (.kary 3) b0 ⟨0, []⟩ := ⟨by omega, by decide⟩
+
+private theorem drawOK_randKary : DrawOK (.randKary 3) b0 ⟨1, [0, 2]⟩ := by
+  refine ⟨by omega, by decide, rfl, ?_⟩
+  show Mono [(-1 : ℚ), 0, 2, 3]
+  exact ⟨by norm_num, by norm_num, by norm_num, trivial⟩
+
+/-- degenerate draws (equal to an end point, and equal to each other) are allowed -/
+private theorem drawOK_randKary_degenerate : DrawOK (.randKary 3) b0 ⟨1, [-1, -1]⟩ := by
+  refine ⟨by omega, by decide, rfl, ?_⟩
+  show Mono [(-1 : ℚ), -1, -1, 3]
+  exact ⟨by norm_num, by norm_num, by norm_num, trivial⟩
+
+example : Tiles (childBoxes (.randKary 3) b0 ⟨1, [0, 2]⟩) b0 ∧
+    (childBoxes (.randKary 3) b0 ⟨1, [0, 2]⟩).length = 3 :=
+  childBoxes_tiles _ _ _ b0_valid drawOK_randKary
+
+example : Tiles (childBoxes (.randKary 3) b0 ⟨1, [-1, -1]⟩) b0 ∧
+    (childBoxes (.randKary 3) b0 ⟨1, [-1, -1]⟩).length = 3 :=
+  childBoxes_tiles _ _ _ b0_valid drawOK_randKary_degenerate
+
+/-- hypotheses of `splitChain_tiles` on a concrete instance -/
+example : Mono (b0[1].lo :: ([(0 : ℚ), 2] ++ [b0[1].hi])) := by
+  show Mono [(-1 : ℚ), 0, 2, 3]
+  exact ⟨by norm_num, by norm_num, by norm_num, trivial⟩
+
+/-- hypotheses of `tiles_refine`: split `b0` in two, then split the first half again -/
+example : Tiles ([] ++ [] ++ childBoxes .binary (b0.set 0 (Iv.lower b0[0])) ⟨1, []⟩ ++
+    [b0.set 0 (Iv.upper b0[0])]) b0 := by
+  have h : Tiles ([] ++ b0.set 0 (Iv.lower b0[0]) :: [b0.set 0 (Iv.upper b0[0])]) b0 := by
+    have := (childBoxes_tiles .binary b0 ⟨0, []⟩ b0_valid (by show 0 < 2; omega)).1
+    rwa [childBoxes_binary_explicit b0 ⟨0, []⟩ (by show 0 < 2; omega)] at this
+  have hv : Box.Valid (b0.set 0 (Iv.lower b0[0])) := (h.1 _ (by simp)).2
+  exact tiles_refine_inplace [] _ _ _ b0 h
+    (childBoxes_tiles .binary _ ⟨1, []⟩ hv (by show 1 < 2; omega)).1
+
+/-- the specification has teeth: a list with a repeated cell is *not* a tiling -/
+example : ¬ Tiles [b0, b0] b0 := by
+  rintro ⟨_, _, hp⟩
+  rw [pairwise_pair] at hp
+  refine hp ⟨[1 / 2, 0], ?_, ?_⟩ <;>
+  · refine Forall₂.cons ⟨?_, ?_⟩ (Forall₂.cons ⟨?_, ?_⟩ Forall₂.nil) <;>
+    (show (_ : ℚ) < _; norm_num)
+
+/-- the concrete children of a ternary split of `[0,1] × [-1,3]` along dimension 0 -/
+example : childBoxes (.kary 3) b0 ⟨0, []⟩ =
+    [[⟨0, 1 / 3⟩, ⟨-1, 3⟩], [⟨1 / 3, 2 / 3⟩, ⟨-1, 3⟩], [⟨2 / 3, 1⟩, ⟨-1, 3⟩]] := by
+  simp [childBoxes, splitChain, linspacePts, chainIvs, range']
+  norm_num
+
+end examples
+
+end PyXAB.C02
